@@ -6,6 +6,7 @@ props = [json.loads(l)['id'] for l in open(os.path.join(V, 'properties.jsonl'))]
 TECH = 'symbolic execution of rustc MIR (mirsym) + z3 (integers with exact wrap-around), counterexamples replayed natively'
 NOTE = 'trusted: rustc MIR pretty-printer, mirsym MIR semantics and library models (differentially validated against the native build), z3; bounds and assumptions are in the evidence file'
 CLAIMED = {
+ 'C16': ('wiring: server::solve_instance and internal::run executed symbolically with every stage an uninterpreted function; the schedule handed to the JSON writer equals, for every interpretation of the stages (EUF validity, z3), reassign_end_depots(set_transitions(LS(improve_depots(MCF)), optimised transitions)) in both branches, and the reported objective value is evaluated on exactly that schedule. A violation is confirmed natively by comparing the server answer with the reference composition on the repository instances', 'DESIGN.md section 3, C16'),
  'C15': ('bounded: every script of real rotation-cycle operations (add to own cycle, remove, move, add at the end, update, 3-opt + replace_cycle) up to the stated length from the empty transition, on tours built by the real Tour::new with symbolic attributes, keeps the cycles a partition of the vehicles, the lookup and the empty-cycle list in step with the cycles, and every counter and both totals equal to recomputation; Transition::new_fast likewise. The accept-if-better rule of the optimisation is rapid_solve code (trusted, outside)', 'DESIGN.md section 3, C15'),
  'C06': ('kernel obligations only: the 3-opt neighbourhood index ranges neither panic (overflow-checked MIR) nor wrap around (release MIR) for every cycle length within the bound and enumerate exactly the triples i<j<k; the overflow depot can host every vehicle the covering circulation needs (feasibility precondition of network_simplex). Termination of the registry-crate loops is trusted', 'DESIGN.md section 3, C06'),
  'C12': ('bounded: for all attribute values (times incl. ties and zero turnaround, locations, asymmetric dead-head matrix, shunting, forbid flag) and all tour/path shapes within the bound, Tour::insert_path / remove / sub_path / check_removable / Tour::new of the real MIR agree with the prefix-path-suffix reference semantics; counterexamples are replayed natively', 'DESIGN.md section 3, C12'),
